@@ -111,7 +111,7 @@ def _norm_parts(parts):
     for x in parts:
         if isinstance(x, tuple):
             try:
-                e = ast.parse(x[1], mode='eval').body
+                e = _Canon().visit(ast.parse(x[1], mode='eval').body)
             except SyntaxError:
                 e = None
             if isinstance(e, ast.Constant) and isinstance(e.value, str):
